@@ -34,7 +34,7 @@ def check(prog: Program, tier: str) -> Result:
         rule_text="instances = dispatch clauses, sort-key components, exposure sites of str-set iteration order; non-trivial = sinks",
     )
     res.trusted_base = ["CPython ast", "sa/taint.py typing rules", "sa/sched.py shape reader"]
-    res.assumptions = ["iteration order of sets of AST nodes (hash by address) is reproducible for one input in CPython; only str-keyed order is decided",
+    res.assumptions = ["iteration order of sets of AST nodes follows memory addresses and is NOT reproducible (shown by the round-3 reproducers): decided for loops with carried state (R6.5) and non-injective sort keys (R6.4), other uses of such sets are not decided",
                        "fixes.sort_imports canonicalises the order of import statements"]
     _r6_1(prog, res)
     _r6_2(prog, res)
